@@ -8,6 +8,10 @@ from vflib.ref import payout
 
 PROP = 'C02'
 RULE = (
+    '(i) bounded-exhaustive: the COMPLETE decision trees of small games '
+    '(2-3 players, stacks of 1-8 chips, hold\'em NL/FL, PLO, Kuhn, razz, '
+    'single draw; every fold/call/raise amount/discard/show-or-muck '
+    'choice) are walked under the same monitors (vflib.explore); (ii) '
     'seeded random hands pushed towards showdowns (passive/aggressive/all-in '
     'policies), 2-9 players with unequal tiny stacks, all 12 predefined '
     'games + custom hi-lo hold\'em, PLO8, Greek, Courchevel-like and draw '
@@ -34,7 +38,8 @@ MIN_NONTRIVIAL = {'quick': 3000, 'thorough': 30000}
 REQUIRED = ('showdowns_checked', 'side_pot_showdowns', 'tied_pots',
             'multi_board_showdowns', 'hilo_showdowns',
             'lone_survivor_hands', 'raked_showdowns',
-            'low_not_qualified_showdowns', 'odd_chip_pushes')
+            'low_not_qualified_showdowns', 'odd_chip_pushes',
+            'trees_completed', 'explored_nodes')
 
 CUSTOMS = ('holdem8', 'plo8', 'greek', 'courchevel', 'draw5', 'badugi1',
            'stud5', 'kuhn', 'razzdraw', 'random')
@@ -125,6 +130,8 @@ def nontrivial(ctx):
 def run_shard(seed, shard, of, tier, deadline):
     return hist.run_history_shard(
         PROP, seed, shard, of, tier, deadline, cases=CASES,
+        explore_s={'quick': 8, 'thorough': 100},
+        explore_nodes={'quick': 2500, 'thorough': 40000},
         gen_kwargs=gen_kwargs, make_monitors=make_monitors,
         nontrivial=nontrivial, pol_tweak=pol_tweak)
 
